@@ -75,9 +75,10 @@ class _Starved(BaseException):
 MODEL_READ_CAP = 4000
 # exceptions that cannot come from the sample values the simulator feeds
 # (math domain / overflow / division errors can, and are not judged)
-PROGRAM_ERRORS = ("NameError", "AttributeError", "UnboundLocalError",
-                  "RuntimeError", "IndexError", "KeyError", "AssertionError",
-                  "TypeError", "ImportError", "ModuleNotFoundError")
+PROGRAM_ERRORS = ("NameError", "UnboundLocalError", "RuntimeError",
+                  "IndexError", "KeyError", "AssertionError", "ImportError",
+                  "ModuleNotFoundError")     # not TypeError / AttributeError:
+# heterogeneous sample values (complex, str, tuples) can cause those
 
 
 def src_value(kind, sid, i):
@@ -122,13 +123,14 @@ class C02(Property):
   def setup(self):
     from audiolazy import (lazy_stream, lazy_itertools, lazy_filters,
                            lazy_analysis, lazy_misc, lazy_poly,
-                           lazy_auditory, lazy_io, lazy_math, lazy_synth)
+                           lazy_auditory, lazy_io, lazy_math, lazy_synth,
+                           lazy_midi, lazy_lpc)
     P = _NS()
     P.ls, P.lit, P.lf, P.la = (lazy_stream, lazy_itertools, lazy_filters,
                                lazy_analysis)
     P.lm, P.lp, P.lau, P.lio, P.lmath = (lazy_misc, lazy_poly, lazy_auditory,
                                          lazy_io, lazy_math)
-    P.lsy = lazy_synth
+    P.lsy, P.lmidi, P.llpc = lazy_synth, lazy_midi, lazy_lpc
     self.P = P
     import sys
     sys.unraisablehook = lambda *a: None
